@@ -251,9 +251,21 @@ def escaping_raises(interp, summ: Summary, _caught=()):
                     if part.startswith("caught:"):
                         lst = part[len("caught:"):].split(",")
                         hs.append(None if lst == ["*"] else lst)
-                rec(ev.sub, chain + (ev.site,), hs)
+                rec(ev.sub, chain + (ev,), hs)
     rec(summ, (), list(_caught))
     return out
+
+
+def facts_on_path(ev, chain):
+    """Branch facts known at the event: its own frame's facts plus those at every enclosing call site."""
+    out = set(ev.facts)
+    for c in chain:
+        out |= c.facts
+    return out
+
+
+def has_fact(facts, needle: str, polarity: bool) -> bool:
+    return any(needle in f[0] and f[1] is polarity for f in facts)
 
 
 def short_exc(name: str) -> str:
@@ -279,5 +291,5 @@ def check_escapes(ob, rule, oblig, fi, summ, allowed, what_entry, finding_roles=
             else:
                 ob.rep.violation(rule, oblig, ev.site.func, "raise:" + sn,
                                  "%s can leave %s, documented: %s" % (sn, what_entry, ", ".join(sorted(allowed)) or "none"),
-                                 site=ev.site.to_json(), path=[str(c) for c in chain])
+                                 site=ev.site.to_json(), path=[str(c.site) for c in chain])
     return n
